@@ -61,9 +61,13 @@ class SignFlipExperimenter(experimenter_lib.Experimenter):
       metric_dict = {}
       for name, metric in suggestion.final_measurement.metrics.items():
         if self._flip_objectives_only and name in self._original_objectives:
-          metric_dict[name] = pyvizier.Metric(value=-1.0 * metric.value)
+          metric_dict[name] = pyvizier.Metric(
+              value=-1.0 * metric.value, std=metric.std
+          )
         elif not self._flip_objectives_only:
-          metric_dict[name] = pyvizier.Metric(value=-1.0 * metric.value)
+          metric_dict[name] = pyvizier.Metric(
+              value=-1.0 * metric.value, std=metric.std
+          )
         else:
           metric_dict[name] = metric
       suggestion.final_measurement.metrics = metric_dict
